@@ -11,7 +11,7 @@ def gen_find(ctx, res, families, o, dia, rtl, alpha, maxlen, stride, offset, lab
     """variants: list of {spelling, so, o}; default = the plain spelling compiled with o"""
     variants = variants or [{"spelling": "plain", "so": [], "o": list(o)}]
     params = {"families": families, "dia": dia, "rtl": rtl, "alpha": alpha, "maxlen": maxlen,
-              "stride": stride, "offset": offset, "variants": variants}
+              "stride": stride, "offset": offset, "variants": variants, "nonnull": False}
     ppath = os.path.join(ctx.dir, f"params-{label}.json")
     json.dump(params, open(ppath, "w"))
     out = ctx.tlc("Gen_Find", "Obs.cfg", env_extra={"VERIF_PARAMS": ppath}, timeout=timeout)
